@@ -24,12 +24,21 @@ later repair of `/repo` made harmless are in `seeded/_discarded/` with the reaso
 | change | property | what it needs in order to manifest | caught by |
 |---|---|---|---|
 """)
-for d in sorted(glob.glob(os.path.join(ROOT, "seeded", "C*"))):
+def _natural(path):
+    import re as _r
+    m = _r.match(r"C(\d+)-m(\d+)", os.path.basename(path))
+    return (int(m.group(1)), int(m.group(2))) if m else (999, 0)
+
+
+for d in sorted(glob.glob(os.path.join(ROOT, "seeded", "C*")), key=_natural):
     mp = os.path.join(d, "meta.json")
     if not os.path.exists(mp):
         continue
     m = json.load(open(mp))
     needs = (m.get("needs_to_manifest") or "").replace("|", "/")
+    # (the note's heading "Needed to manifest:" was cut mid-word by the extraction regex)
+    import re as _re
+    needs = _re.sub(r"^(ed|s|ed to manifest|something specific)\s*(to manifest)?\s*(\([^)]*\))?\s*:\s*", "", needs).strip()
     if len(needs) > 260:
         needs = needs[:257] + "..."
     by = "; ".join("%s: %s" % (x["check"], x["result"]) for x in m.get("detected_by", [])).replace("|", "/")
